@@ -4,6 +4,8 @@
 
     EF <record>            →  EventPack.Write's attribute folding (Packs.Event.fold): the table as on the wire
     EU <record>            →  EventPack.Read's unfolding (Packs.Event.unfold) of a wire table
+    K                      →  the bounded tables: Type:field:limit,…  (Packs.expectedCaps: the model's statement; C03Gen.caps_as_recorded ties the constructors to it)
+    DK <Type> <hex>        →  like D, then the bounded table keeps its last `limit` rows (Packs.capRows)
     C <hex>                →  a type-tagged pack tree (CompositePack to any depth, Packs.Tree.readPT) decoded
     E <Type> <record>      →  <hex of T.w written for the record>
     D <Type> <hex>         →  ok <record read by T.r> <bytes left>   |  fail
@@ -21,6 +23,7 @@ import Golib.Packs.Hand
 import Golib.Packs.Irregular
 import Golib.Packs.Event
 import Golib.Packs.Tree
+import Golib.Packs.Caps
 import Golib.Gen.PackLayouts
 import Driver.Common
 import Std.Data.HashMap
@@ -213,6 +216,25 @@ partial def showTree (pfx : String) : Packs.CT → Out
       [(p ++ "pack#", Val.int kids.length)]) ++
       ((List.range kids.length).zip kids).flatMap (fun (i, k) => showTree s!"{p}pack[{i}]" k)
 
+/-- index of a row path `F[i].x` of table `F` -/
+def rowIndex (f : String) (k : String) : Option (Nat × String) :=
+  if k.startsWith (f ++ "[") then
+    let rest := dropS k (f.length + 1)
+    match rest.splitOn "]" with
+    | i :: tl => i.toNat?.map (fun n => (n, "]".intercalate tl))
+    | _ => none
+  else none
+
+/-- what the bounded table `f` (limit `m`) keeps of the rows the reader delivered: the last `m` (Packs.capRows) -/
+def capOut (f : String) (m : Nat) (o : Out) : Out :=
+  let n := ((o.lookup (f ++ "#")).getD (.int 0)).toInt.toNat
+  let from_ := n - (Packs.capRows m (List.range n)).length
+  o.filterMap (fun (k, v) =>
+    if k == f ++ "#" then some (k, Val.int (n - from_))
+    else match rowIndex f k with
+      | some (i, tl) => if i < from_ then none else some (s!"{f}[{i - from_}]{tl}", v)
+      | none => some (k, v))
+
 def answer (line : String) : String :=
   match line.splitOn " " with
   | ["E", ty, rec] =>
@@ -252,6 +274,17 @@ def answer (line : String) : String :=
       | some (t, rest) => s!"ok {showOut (showTree "" t)} {rest.length}"
       | none => "fail"
     | none => "bad-hex"
+  | ["K"] => ",".intercalate (Packs.expectedCaps.map (fun (t, f, m) => s!"{t}:{f}:{m}"))
+  | ["DK", ty, hex] =>
+    match table.get? ty, ofHex hex with
+    | some (_, r), some bs =>
+      match r.read "" (fun _ => 0) bs with
+      | some (o, _, rest) =>
+        let o := (Packs.expectedCaps.filter (·.1 == ty)).foldl (fun o (_, f, m) => capOut f m.toNat o) o
+        s!"ok {showOut o} {rest.length}"
+      | none => "fail"
+    | none, _ => "no-layout"
+    | _, none => "bad-hex"
   | ["T"] => ",".intercalate (table.toList.map (·.1))
   | _ => "bad-op"
 
